@@ -10,7 +10,8 @@ CONSTANTS
   BugH9 = TRUE
   BugH10 = FALSE
   BugMetaStale = FALSE
+  BugH11 = FALSE
   KRounds = 12
-INVARIANTS TraceNotStuck C43AfterOK C43Note
+INVARIANTS TraceNotStuck C43AfterOKT C43Note
 PROPERTIES C43Keeps
 CHECK_DEADLOCK FALSE
